@@ -38,6 +38,9 @@ structure Input where
                            -- blob with the hash bound to the signature algorithm, mediaType = the caller's ("" = none)
   hashSupported : Bool     -- blob: the signature algorithm's hash has a digest algorithm
   required : List (String × String)   -- user metadata the caller requires
+  reader : String          -- blob: how the reader delivers the bytes (concretisation only: must not matter)
+  plugin : Bool            -- the signature names an installed verification plugin that owns the identity check
+                           -- and approves (concretisation only: the payload is checked all the same)
   deriving Repr, FromJson, ToJson
 
 structure Obs where
